@@ -167,6 +167,20 @@ class WorklistSpec(Spec):
             out.append(C("others-unchanged", wl_same_except(old, st, w, it)))
         return out
 
+    def exc_cases(self, st, a):
+        # callee view of pop: raises exactly when the view is empty (the discharged `raises` obligations below)
+        if self.method == "pop":
+            x = z3.Int("wl!x")
+            return [("IndexError", z3.Not(z3.Exists([x], WView(st, a["self"].z).has(x))))]
+        return []
+
+    def result_value(self, st, a):
+        if self.method == "pop":
+            return VRef(st.fresh_int("popped"), "Operation")
+        if self.method == "__bool__":
+            return VBool(st.fresh_bool("nonempty"))
+        return None
+
     def post_exc(self, old, st, a, exc):
         if self.method == "pop" and exc == "IndexError":
             w = a["self"].z
